@@ -117,7 +117,9 @@ class Run:
         e.pop("JAVA_TOOL_OPTIONS", None)
         if env:
             e.update({k: str(v) for k, v in env.items()})
-        cmd = ["java", "-Xss512m", "-Xmx%s" % xmx, "-XX:+UseParallelGC", "-cp", TLAJAR, "tlc2.TLC", "-config", cfg, "-metadir", md,
+        jt = self.path("jtmp")   # TLC leaves an empty tlc-<n> directory per run in java.io.tmpdir: keep them inside the work directory
+        os.makedirs(jt, exist_ok=True)
+        cmd = ["java", "-Xss512m", "-Xmx%s" % xmx, "-XX:+UseParallelGC", "-Djava.io.tmpdir=" + jt, "-cp", TLAJAR, "tlc2.TLC", "-config", cfg, "-metadir", md,
                "-workers", str(workers), "-noGenerateSpecTE"]
         if extra:
             cmd += extra
